@@ -7,6 +7,7 @@
 #include "guard.h"
 #include <algorithm>
 #include <ctype.h>
+#include <malloc.h>
 #include <memory>
 #include <string>
 #include <strings.h>
@@ -343,6 +344,13 @@ struct TokModel
             FAIL("harness-oracle-disagrees-with-glibc", name ": reference %ld, glibc %ld", (long)(refv), (long)(hostv)); \
     } while (0)
 
+// Bounds far beyond every object: for the routines whose definition stops at the terminator these are
+// ordinary arguments ("n larger than the string length"); arithmetic on the bound (n + 1, s + n, (int)n) must not leak
+static const size_t EXTREME[] = {(size_t)1 << 16, ((size_t)1 << 31) - 1, (size_t)1 << 31, ((size_t)1 << 32) - 1, (size_t)1 << 32,
+                                 SIZE_MAX / 2, SIZE_MAX / 2 + 1, SIZE_MAX - 1, SIZE_MAX};
+static const size_t N_EXTREME = sizeof EXTREME / sizeof *EXTREME;
+static bool extreme(size_t n) { return n >= ((size_t)1 << 16); }
+
 // ================================================================ checks, one per routine
 // ---- memcpy / memmove on separate blocks
 static void chk_copy(bool move, const string &src, unsigned smis, unsigned dmis, unsigned modes)
@@ -486,7 +494,7 @@ static void chk_strlen(const string &s, unsigned mis)
 }
 static void chk_strnlen(const string &s, size_t maxlen, unsigned mis)
 {
-    CL("strnlen", maxlen <= s.size() ? "maxlen<=len" : "maxlen>len");
+    CL("strnlen", maxlen <= s.size() ? "maxlen<=len" : extreme(maxlen) ? "maxlen-extreme" : "maxlen>len");
     size_t rd = std::min(s.size() + 1, maxlen); // bytes the definition allows to examine
     size_t ref = r_strnlen(s.c_str(), maxlen);
     for (int mirror = 0; mirror < 2; mirror++)
@@ -499,6 +507,8 @@ static void chk_strnlen(const string &s, size_t maxlen, unsigned mis)
         if (r != ref)
             FAIL("ret", "returned %zu, definition says %zu", r, ref);
     }
+    if (extreme(maxlen))
+        VF_OK("strnlen: extreme maxlen (2^16 .. SIZE_MAX) on a terminated string == len");
     VF_OK("strnlen == min(len, maxlen), examines at most maxlen bytes");
 }
 // ---- strcpy / strncpy / strlcpy
@@ -566,16 +576,15 @@ static void chk_strlcpy(const string &s, size_t size, unsigned smis, unsigned dm
     VF_OK("strlcpy: min(len,size-1) chars + NUL, returns strlen(src), size 0 writes nothing");
 }
 // ---- strcat / strncat
-static void chk_strcat(const string &d0, const string &s, long n /* -1: strcat */, unsigned smis, unsigned dmis)
+static void chk_strcat(const string &d0, const string &s, bool bounded, size_t n, unsigned smis, unsigned dmis)
 {
-    bool bounded = n >= 0;
-    size_t take = bounded ? std::min((size_t)n, s.size()) : s.size();
-    CL(bounded ? "strncat" : "strcat", !bounded ? (s.empty() ? "empty-src" : "nonempty-src") : (size_t)n < s.size() ? "n<len(src)" : (size_t)n == s.size() ? "n=len(src)" : "n>len(src)");
+    size_t take = bounded ? std::min(n, s.size()) : s.size();
+    CL(bounded ? "strncat" : "strcat", !bounded ? (s.empty() ? "empty-src" : "nonempty-src") : n < s.size() ? "n<len(src)" : n == s.size() ? "n=len(src)" : extreme(n) ? "n-extreme" : "n>len(src)");
     string exp = d0 + s.substr(0, take);
     size_t rd = bounded ? std::min(s.size() + 1, (size_t)n) : s.size() + 1;
     for (int mode = 0; mode < 3; mode++)
     {
-        auto W = [&] { return fmt("%s(dst=%s, src=%s%s) src_misalign=%u dst_misalign=%u placement=%s", g_fn, q(d0).c_str(), q(s).c_str(), bounded ? fmt(", n=%ld", n).c_str() : "", smis, dmis, MODE[mode]); };
+        auto W = [&] { return fmt("%s(dst=%s, src=%s%s) src_misalign=%u dst_misalign=%u placement=%s", g_fn, q(d0).c_str(), q(s).c_str(), bounded ? fmt(", n=%zu", n).c_str() : "", smis, dmis, MODE[mode]); };
         Wit<decltype(W)> ws(W);
         {
             string hb(exp.size() + 2, '#');
@@ -593,6 +602,8 @@ static void chk_strcat(const string &d0, const string &s, long n /* -1: strcat *
             FAIL("ret", "returned dst%+ld instead of dst", (long)(r - d.c()));
         d.expect(exp.c_str(), exp.size() + 1);
     }
+    if (bounded && extreme(n))
+        VF_OK("strncat: extreme n (2^16 .. SIZE_MAX) appends the whole terminated src");
     if (bounded)
         VF_OK("strncat: dst + at most n chars of src + NUL, reads at most n bytes of src");
     else
@@ -612,7 +623,7 @@ static void chk_cmp(CmpKind k, const string &a, const string &b, size_t n, unsig
     static const char *const NAMES[] = {"strcmp", "strncmp", "strcasecmp", "strncasecmp"};
     size_t lim = bounded ? n : (size_t)-1;
     int ref = r_strncmp_gen(a.c_str(), b.c_str(), lim, fold);
-    CL(NAMES[k], bounded && n == 0 ? "n=0" : ref == 0 ? "equal" : "differ");
+    CL(NAMES[k], bounded && n == 0 ? "n=0" : bounded && extreme(n) ? (ref == 0 ? "n-extreme-equal" : "n-extreme-differ") : ref == 0 ? "equal" : "differ");
     size_t ra = std::min(a.size() + 1, lim), rb = std::min(b.size() + 1, lim);
     for (int mirror = 0; mirror < 2; mirror++)
     {
@@ -626,6 +637,13 @@ static void chk_cmp(CmpKind k, const string &a, const string &b, size_t n, unsig
             FAIL("ret", "returned %d, sign must be %d", r, ref);
         src_same(A, a.c_str());
         src_same(B, b.c_str());
+    }
+    if (bounded && extreme(n))
+    {
+        if (fold)
+            VF_OK("strncasecmp: extreme n (2^16 .. SIZE_MAX) == strcasecmp on terminated strings");
+        else
+            VF_OK("strncmp: extreme n (2^16 .. SIZE_MAX) == strcmp on terminated strings");
     }
     switch (k)
     {
@@ -732,33 +750,64 @@ static void chk_two(SetKind k, const string &a, const string &b, unsigned amis, 
     }
 }
 // ---- strdup / strndup
-static void chk_dup(const string &s, long size /* -1: strdup */, unsigned mis)
+static void chk_dup(const string &s, bool bounded, size_t size, unsigned mis)
 {
-    bool bounded = size >= 0;
-    CL(bounded ? "strndup" : "strdup", !bounded ? (s.empty() ? "empty" : "nonempty") : (size_t)size <= s.size() ? "size<=len" : "size>len");
-    size_t take = bounded ? std::min((size_t)size, s.size()) : s.size();
-    size_t rd = bounded ? std::min(s.size() + 1, (size_t)size) : s.size() + 1;
+    CL(bounded ? "strndup" : "strdup", !bounded ? (s.empty() ? "empty" : "nonempty") : size <= s.size() ? "size<=len" : extreme(size) ? "size-extreme" : "size>len");
+    size_t take = bounded ? std::min(size, s.size()) : s.size();
+    size_t rd = bounded ? std::min(s.size() + 1, size) : s.size() + 1;
     for (int mirror = 0; mirror < 2; mirror++)
     {
-        auto W = [&] { return fmt("%s(%s%s) (array of %zu bytes) misalign=%u %s", g_fn, q(s).c_str(), bounded ? fmt(", size=%ld", size).c_str() : "", rd, mis, mirror ? "mirrored" : "normal"); };
+        auto W = [&] { return fmt("%s(%s%s) (array of %zu bytes) misalign=%u %s", g_fn, q(s).c_str(), bounded ? fmt(", size=%zu", size).c_str() : "", rd, mis, mirror ? "mirrored" : "normal"); };
         Wit<decltype(W)> ws(W);
         vf::Exact S(s.c_str(), rd, mis, mirror);
-        char *r = bounded ? igc_strndup(S.cc(), (size_t)size) : igc_strdup(S.cc());
+        // the compat objects call the host allocator (malloc is not defined by them, hence not renamed):
+        // the block is an ASan heap block, its size is observable
+        char *r = bounded ? igc_strndup(S.cc(), size) : igc_strdup(S.cc());
         if (!r)
-            FAIL("ret", "returned NULL although memory is available");
+            FAIL("ret", "returned NULL although %zu bytes are all that is needed and memory is available", take + 1);
         if (r == S.cc())
             FAIL("ret", "returned the argument itself");
+        size_t have = malloc_usable_size(r); // under ASan: the size that was requested from malloc
+        if (have < take + 1)
+        {
+            free(r);
+            FAIL("block-size", "the returned block has %zu bytes, the copy needs %zu", have, take + 1);
+        }
         bool ok = memcmp(r, s.data(), take) == 0 && r[take] == 0; // ASan checks that take+1 bytes belong to the block
         string got = ok ? "" : q(r, take + 1);
         free(r); // must be a malloc block (ASan: bad-free otherwise)
         if (!ok)
             FAIL("content", "copy is %s, definition says %s + NUL", got.c_str(), q(s.substr(0, take)).c_str());
         src_same(S, s.c_str());
+        VF_MAX("strdup/strndup: bytes allocated beyond len+1 (max, informational)", have - (take + 1));
     }
+    if (bounded && extreme(size))
+        VF_OK("strndup: extreme size (2^16 .. SIZE_MAX) duplicates the whole terminated string, non-NULL");
     if (bounded)
         VF_OK("strndup: new block with min(len,size) chars + NUL, reads at most size bytes of s");
     else
         VF_OK("strdup: new malloc block equal to s incl. terminator");
+}
+// ---- memchr with n beyond the object: C11 7.24.5.1p2 "behaves as if it reads the characters sequentially and stops
+// as soon as a matching character is found" - defined exactly when c occurs inside the object (memrchr/memcmp: not defined)
+static void chk_memchr_beyond(const string &obj, int c, size_t n, unsigned mis)
+{
+    long ref = r_memchr(obj.data(), c, obj.size());
+    if (ref < 0 || n <= obj.size())
+        return;
+    CL("memchr", extreme(n) ? "n-extreme-match-inside" : "n>object-match-inside");
+    for (int mirror = 0; mirror < 2; mirror++)
+    {
+        auto W = [&] { return fmt("memchr(s=%s (object of %zu bytes), c=%d, n=%zu) misalign=%u %s", vf::hex(obj.data(), obj.size(), 48).c_str(), obj.size(), c, n, mis, mirror ? "mirrored" : "normal"); };
+        Wit<decltype(W)> ws(W);
+        vf::Exact S(obj.data(), obj.size(), mis, mirror);
+        void *r = igc_memchr(S.p, c, n);
+        long got = r ? (long)((uc *)r - S.p) : -1;
+        if (got != ref)
+            FAIL("ret", "returned offset %ld, definition says %ld (-1 = NULL)", got, ref);
+        src_same(S, obj.data());
+    }
+    VF_OK("memchr: n beyond the object, match inside -> first occurrence, nothing behind it read");
 }
 // ---- strlwr / strupr (ASCII letters only; every other byte, high-bit ones included, unchanged)
 static void chk_case(bool up, const string &s, unsigned mis)
@@ -1084,14 +1133,18 @@ static void single_run(uint64_t idx)
     {
     case E_LEN:
         chk_strlen(s, mis), ev++;
-        chk_dup(s, -1, mis), ev++;
+        chk_dup(s, false, 0, mis), ev++;
         chk_case(false, s, mis), chk_case(true, s, mis), ev += 2;
         for (size_t m = 0; m <= L + 2; m++)
         {
             chk_strnlen(s, m, mis), ev++;
-            chk_dup(s, (long)m, mis), ev++;
+            chk_dup(s, true, m, mis), ev++;
         }
-        chk_strnlen(s, (size_t)-1, mis), ev++;
+        for (size_t m : EXTREME)
+        {
+            chk_strnlen(s, m, mis), ev++;
+            chk_dup(s, true, m, mis), ev++;
+        }
         break;
     case E_COPY:
         chk_strcpy(s, mis, mis2), ev++;
@@ -1100,6 +1153,8 @@ static void single_run(uint64_t idx)
             chk_strncpy(s, n, mis, mis2), ev++;
             chk_strlcpy(s, n, mis, mis2), ev++;
         }
+        if ((idx / E_SINGLE_COUNT) % 16 == 0) // a destination that really has 2^16 bytes
+            chk_strlcpy(s, (size_t)1 << 16, mis, mis2), chk_strncpy(s, (size_t)1 << 16, mis, mis2), ev += 2;
         break;
     case E_CHR:
         for (int c : CHARS)
@@ -1107,6 +1162,8 @@ static void single_run(uint64_t idx)
             chk_chr(K_STRCHR, s, c, mis), chk_chr(K_STRRCHR, s, c, mis), chk_chr(K_STRCHRNUL, s, c, mis), ev += 3;
             chk_memchr(false, s, c, mis), chk_memchr(true, s, c, mis), ev += 2;                                 // without the terminator
             chk_memchr(false, string(s.c_str(), L + 1), c, mis), chk_memchr(true, string(s.c_str(), L + 1), c, mis), ev += 2; // with it
+            chk_memchr_beyond(string(s.c_str(), L + 1), c, L + 2, mis), ev++;
+            chk_memchr_beyond(string(s.c_str(), L + 1), c, EXTREME[(idx + (unsigned)c) % N_EXTREME], mis), ev++;
         }
         break;
     }
@@ -1132,6 +1189,11 @@ static void pair_run(uint64_t idx)
             chk_cmp(K_STRCMP, a, b, 0, am, bm), chk_cmp(K_STRCASECMP, a, b, 0, am, bm), ev += 2;
             for (size_t n = 0; n <= std::max(a.size(), b.size()) + 1; n++)
                 chk_cmp(K_STRNCMP, a, b, n, am, bm), chk_cmp(K_STRNCASECMP, a, b, n, am, bm), ev += 2;
+            for (size_t k = 0; k < 3; k++) // three of the extreme bounds per pair, all of them over the universe
+            {
+                size_t n = EXTREME[(ai + bi * 3 + k * 3) % N_EXTREME];
+                chk_cmp(K_STRNCMP, a, b, n, am, bm), chk_cmp(K_STRNCASECMP, a, b, n, am, bm), ev += 2;
+            }
             break;
         case P_SEARCH:
             // haystack = a framed so that the match can sit at the start, in the middle, at the very end
@@ -1143,10 +1205,11 @@ static void pair_run(uint64_t idx)
             chk_two(K_STRSPN, a + b, b, am, bm), chk_two(K_STRCSPN, a + b, b, am, bm), chk_two(K_STRPBRK, a + b, b, am, bm), ev += 3;
             break;
         case P_CAT:
-            chk_strcat(a, b, -1, bm, am), ev++;
+            chk_strcat(a, b, false, 0, bm, am), ev++;
             for (size_t n = 0; n <= b.size() + 2; n++)
-                chk_strcat(a, b, (long)n, bm, am), ev++;
-            chk_strcat(a, b, 1000, bm, am), ev++;
+                chk_strcat(a, b, true, n, bm, am), ev++;
+            chk_strcat(a, b, true, 1000, bm, am), ev++;
+            chk_strcat(a, b, true, EXTREME[(ai + bi) % N_EXTREME], bm, am), chk_strcat(a, b, true, EXTREME[(ai + bi + 4) % N_EXTREME], bm, am), ev += 2;
             break;
         }
     }
@@ -1198,21 +1261,23 @@ static void rand_run(uint64_t idx)
             long v = (long)x + r.range(-2, 3);
             return r.chance(1, 10) ? (r.chance(1, 2) ? 0 : x + 100) : (size_t)(v < 0 ? 0 : v);
         };
+        // the same, plus the extreme bounds, for the routines that stop at the terminator
+        auto bound = [&](size_t x) -> size_t { return r.chance(1, 6) ? EXTREME[r.below(N_EXTREME)] - (r.chance(1, 4) ? r.below(3) : 0) : around(x); };
         uint64_t h = vf::hash_bytes(a.data(), a.size(), vf::hash_bytes(b.data(), b.size(), vf::mix(g, (uint64_t)(c + 1000) * 64 + m1 * 8 + m2)));
         switch (g)
         {
-        case R_LEN: chk_strlen(a, m1), chk_strnlen(a, around(L), m1); break;
-        case R_DUP: chk_dup(a, -1, m1), chk_dup(a, (long)around(L), m1); break;
+        case R_LEN: chk_strlen(a, m1), chk_strnlen(a, bound(L), m1); break;
+        case R_DUP: chk_dup(a, false, 0, m1), chk_dup(a, true, bound(L), m1); break;
         case R_CASE: chk_case(false, a, m1), chk_case(true, a, m1); break;
         case R_CPY: chk_strcpy(a, m1, m2); break;
         case R_NCPY: chk_strncpy(a, around(L), m1, m2); break;
         case R_LCPY: chk_strlcpy(a, around(L), m1, m2); break;
-        case R_CAT: chk_strcat(b, a, -1, m1, m2); break;
-        case R_NCAT: chk_strcat(b, a, (long)around(L), m1, m2); break;
+        case R_CAT: chk_strcat(b, a, false, 0, m1, m2); break;
+        case R_NCAT: chk_strcat(b, a, true, bound(L), m1, m2); break;
         case R_CMP: chk_cmp(K_STRCMP, a, b, 0, m1, m2), chk_cmp(K_STRCMP, b, a, 0, m1, m2); break;
-        case R_NCMP: chk_cmp(K_STRNCMP, a, b, around(std::min(a.size(), b.size())), m1, m2); break;
+        case R_NCMP: chk_cmp(K_STRNCMP, a, b, bound(std::min(a.size(), b.size())), m1, m2); break;
         case R_CASECMP: chk_cmp(K_STRCASECMP, a, b, 0, m1, m2), chk_cmp(K_STRCASECMP, b, a, 0, m1, m2); break;
-        case R_NCASECMP: chk_cmp(K_STRNCASECMP, a, b, around(std::min(a.size(), b.size())), m1, m2); break;
+        case R_NCASECMP: chk_cmp(K_STRNCASECMP, a, b, bound(std::min(a.size(), b.size())), m1, m2); break;
         case R_CHR: chk_chr(K_STRCHR, a, c, m1), chk_chr(K_STRRCHR, a, c, m1), chk_chr(K_STRCHRNUL, a, c, m1); break;
         case R_STR:
         case R_CASESTR:
@@ -1235,6 +1300,7 @@ static void rand_run(uint64_t idx)
         {
             string m = gen(r, L, true);
             chk_memchr(false, m, c, m1), chk_memchr(true, m, c, m1);
+            chk_memchr_beyond(m, c, bound(L + 1), m1);
             break;
         }
         case R_MEMCMP:
@@ -1354,6 +1420,12 @@ extern "C" void vf_setup()
              "strcspn: length of the initial segment free of reject chars",
              "strpbrk: first char of s that is in accept else NULL",
              "strdup: new malloc block equal to s incl. terminator",
+             "strnlen: extreme maxlen (2^16 .. SIZE_MAX) on a terminated string == len",
+             "strncmp: extreme n (2^16 .. SIZE_MAX) == strcmp on terminated strings",
+             "strncasecmp: extreme n (2^16 .. SIZE_MAX) == strcasecmp on terminated strings",
+             "strncat: extreme n (2^16 .. SIZE_MAX) appends the whole terminated src",
+             "strndup: extreme size (2^16 .. SIZE_MAX) duplicates the whole terminated string, non-NULL",
+             "memchr: n beyond the object, match inside -> first occurrence, nothing behind it read",
              "strndup: new block with min(len,size) chars + NUL, reads at most size bytes of s",
              "strlwr: A-Z -> a-z in place, everything else unchanged, returns str",
              "strupr: a-z -> A-Z in place, everything else unchanged, returns str",
